@@ -136,8 +136,15 @@ package keyproof
 //@   loop 3 invariant 0 <= $i && $i <= len(rlist) && forall i in 0..$i :: rlist[i] != nil
 //@   mustfail canary: !result
 
-//@ # a Pedersen commitment that is 0 modulo the group prime makes every reconstructed commitment containing it 0, whatever the responses
-//@ func (*pedersenStructure).verifyProofStructure
+//@ # F54: a Pedersen commitment that is 0 modulo the group prime makes every reconstructed commitment containing it 0, whatever the
+//@ # responses. ValidKeyProofStructure.VerifyProof (not itself within the verified subset) accepts only lists whose group elements -
+//@ # everything except the group prime, the modulus and the commitments of the quasi-safe-prime part - pass this test.
+//@ func groupElementsNonZero
 //@   property C17
-//@   nopanic off
-//@   ensures[C17] unit: result ==> proof.Commit != nil && val(proof.Commit) > 0
+//@   safety
+//@   requires p != nil && val(p) != 0
+//@   ensures[C17] units: result ==> forall j in 0..len(list) :: (j < endFirst || (j >= startSecond && j < endSecond) || j >= startThird) ==> list[j] != nil && rem(val(list[j]), val(p)) != 0
+//@   ensures complete: (forall j in 0..len(list) :: list[j] != nil && rem(val(list[j]), val(p)) != 0) ==> result
+//@   modifies nothing
+//@   loop 0 invariant 0 <= $i && $i <= len(list) && forall j in 0..$i :: (j < endFirst || (j >= startSecond && j < endSecond) || j >= startThird) ==> list[j] != nil && rem(val(list[j]), val(p)) != 0
+//@   loop 0 modifies onlyfresh("BV")
